@@ -11,6 +11,8 @@ package gate
 import (
 	"fmt"
 	"os"
+	"runtime/debug"
+	"runtime/pprof"
 	"strings"
 	"sync/atomic"
 	"testing"
@@ -45,8 +47,17 @@ func newRunner(r *vh.Rand) vh.Runner {
 	vn := pickS(r, []string{"none", "ok", "fail"}, 70, 20, 10)
 	chain := pickS(r, []string{"short", "long"}, 75, 25)
 	zrtt := pickS(r, []string{"none", "accept", "reject", "reject-params"}, 80, 10, 6, 4)
+	psk := ""
 	if zrtt != "none" {
-		client, retry, vn = "plain", false, "none"
+		// resumption scenarios: with or without a server Retry (the early data is in flight when the Retry arrives);
+		// the plain client, or the Chrome parrot dialed through UTransport.DialEarly with a pre_shared_key extension
+		// appended to its preset ClientHelloSpec (psk), with an empty early_data extension in front of it on the resuming
+		// dial (psked), with the extension but without Config.OmitEmptyPsk (strict: uTLS cannot build the first
+		// ClientHello - the dial has to fail, not hang), or as the preset is (none: never resumes)
+		client, vn = pickS(r, []string{"plain", "chrome"}, 60, 40), "none"
+		if client == "chrome" {
+			psk = " psk=" + pickS(r, []string{"psk", "psked", "strict", "none"}, 60, 15, 10, 15)
+		}
 	}
 	netMode := "ok"
 	if zrtt == "none" && vn != "fail" {
@@ -67,7 +78,7 @@ func newRunner(r *vh.Rand) vh.Runner {
 			cancel = fmt.Sprintf("t%d", r.Pick(30, 40, 30)*20+r.Intn(25))
 		}
 	}
-	rn.plan = append(rn.plan, fmt.Sprintf("scn client=%s retry=%s vn=%s chain=%s zrtt=%s net=%s cancel=%s", client, boolTxt(retry), vn, chain, zrtt, netMode, cancel))
+	rn.plan = append(rn.plan, fmt.Sprintf("scn client=%s retry=%s vn=%s chain=%s zrtt=%s net=%s cancel=%s%s", client, boolTxt(retry), vn, chain, zrtt, netMode, cancel, psk))
 	nf := r.Pick(40, 30, 20, 10)
 	for i := 0; i < nf; i++ {
 		kind := pickS(r, []string{"drop", "dup", "delay", "flip", "trunc"}, 40, 20, 15, 20, 5)
@@ -126,6 +137,29 @@ func newRunner(r *vh.Rand) vh.Runner {
 			}
 		}
 		rn.plan = append(rn.plan, strings.TrimSpace(fmt.Sprintf("inj %d after=%d delay=%d kind=%s seed=%d %s", i+1, after, delay, kind, r.U64()>>1, strings.Join(ps, " "))))
+	}
+	if r.Chance(30) {
+		// anchored at the handshake, not at a datagram count: right after the client's first Handshake packet went on the
+		// wire (usually coalesced behind an Initial packet) it has no Initial keys any more (RFC 9001 4.9.1) - an Initial
+		// packet sealed with the public Initial keys (CONNECTION_CLOSE, PING), or a replay of the server's first
+		// datagram, arrives before / around / after the HANDSHAKE_DONE (one round trip = 20 ms later)
+		ni++
+		delay := 0
+		switch r.Pick(45, 35, 20) {
+		case 1:
+			delay = 1 + r.Intn(19)
+		case 2:
+			delay = 20 + r.Intn(60)
+		}
+		switch r.Pick(75, 15, 10) {
+		case 0:
+			rn.plan = append(rn.plan, fmt.Sprintf("inj %d after=-1 when=hs delay=%d kind=initial seed=%d scid=%s keys=%s payload=%s ver=cur", ni, delay, r.U64()>>1,
+				pickS(r, []string{"right", "wrong"}, 80, 20), pickS(r, []string{"valid", "garbage"}, 85, 15), pickS(r, []string{"close", "ping"}, 70, 30)))
+		case 1:
+			rn.plan = append(rn.plan, fmt.Sprintf("inj %d after=-1 when=hs delay=%d kind=replay seed=%d src=0", ni, delay, r.U64()>>1))
+		default:
+			rn.plan = append(rn.plan, fmt.Sprintf("inj %d after=-1 when=hs delay=%d kind=coalesce seed=%d first=initial scid=right keys=valid second=same tail=long", ni, delay, r.U64()>>1))
+		}
 	}
 	if vn == "ok" && zrtt == "none" && r.Chance(45) {
 		// the dial is re-created by the server's genuine Version Negotiation packet; right after it (before the
@@ -195,7 +229,7 @@ func (rn *runner) Exec(op string) string {
 			return "skip"
 		}
 		m := kv(f[1:])
-		rn.spec = scnSpec{client: m["client"], retry: m["retry"] == "1", vn: m["vn"], chain: m["chain"], zrtt: m["zrtt"], net: m["net"], cancel: m["cancel"]}
+		rn.spec = scnSpec{client: m["client"], retry: m["retry"] == "1", vn: m["vn"], chain: m["chain"], zrtt: m["zrtt"], net: m["net"], cancel: m["cancel"], psk: m["psk"]}
 		if rn.spec.client == "" {
 			rn.spec.client = "plain"
 		}
@@ -237,7 +271,11 @@ func (rn *runner) Exec(op string) string {
 			// deadlocked when the scenario ends. The outcome was already recorded; the case goes on.
 			defer func() {
 				if e := recover(); e != nil {
-					if rn.out == nil || !rn.out.leaked {
+					if os.Getenv("GATE_DEBUG") != "" {
+						fmt.Fprintf(os.Stderr, "gate driver: panic in scenario: %v\n%s\n", e, debug.Stack())
+						pprof.Lookup("goroutine").WriteTo(os.Stderr, 2)
+					}
+					if rn.out == nil || !(rn.out.leaked || rn.out.startLeak) {
 						panic(e)
 					}
 				}
